@@ -24,6 +24,7 @@ func checkC04(c *Check, a *Anchors) {
 	c04RollbackEffective(c, a)
 	c04RecordAfterSuccess(c, a)
 	queryNeverRecords(c, a, "query-never-records")
+	methodResolution(c, a, "method-resolution-agrees")
 }
 
 // fpWriteDryGuarded: every state write in internal/fingerprint is on the false edge of the checker's dry flag.
@@ -377,4 +378,73 @@ func queryNeverRecords(c *Check, a *Anchors, rule string) {
 	}
 	c.Sites += len(fns)
 	c.Floor(rule, n, 1)
+}
+
+// methodResolution: sibling agreement on which fingerprint method applies (task-level `method:` wins over the Taskfile's).
+func methodResolution(c *Check, a *Anchors, rule string) {
+	c.Rule(rule, "every function of package task that hands a fingerprint method to a checker (WithMethod / NewSourcesChecker) resolves it the same way on all paths: the task's own `method:` when it is set, the Taskfile-wide method otherwise — the up-to-date check, --status, the JSON listing and the rollback after a failure must agree, otherwise the rollback removes the state of the wrong checker")
+	n := 0
+	for _, fb := range c.P.BodiesIn(PkgTask) {
+		uses := false
+		for _, call := range callsIn(fb, false) {
+			obj := callee(fb.Info(), call)
+			if isFunc(obj, PkgFingerprint, "", "WithMethod") || isFunc(obj, PkgFingerprint, "", "NewSourcesChecker") {
+				uses = true
+			}
+		}
+		if !uses {
+			continue
+		}
+		fn := c.P.SSAFunc(fb)
+		if fn == nil {
+			continue
+		}
+		c.Fn(fb)
+		var pe *PathEnum
+		pe = &PathEnum{Fn: fn, MaxRevisit: 0, NoInline: true, EventR: func(in ssa.Instruction, resolve func(ssa.Value) ssa.Value) (string, string) {
+			call, ok := in.(*ssa.Call)
+			if !ok {
+				return "", ""
+			}
+			f := call.Common().StaticCallee()
+			if f == nil || f.Pkg == nil || f.Pkg.Pkg.Path() != PkgFingerprint || (f.Name() != "WithMethod" && f.Name() != "NewSourcesChecker") {
+				return "", ""
+			}
+			return "method=" + pe.key(resolve(call.Common().Args[0]), nil), "call"
+		}}
+		pe.Run()
+		c.Paths += len(pe.Paths)
+		var bad []string
+		seen := 0
+		for _, p := range pe.Paths {
+			for _, e := range p.Events {
+				if !strings.HasPrefix(e.Label, "method=") {
+					continue
+				}
+				seen++
+				got := strings.TrimPrefix(e.Label, "method=")
+				empty, known := false, false
+				for k, v := range p.Asg {
+					if strings.HasPrefix(k, "eq(field:Task.Method,") && strings.HasSuffix(k, `"")`) {
+						empty, known = v, true
+					}
+				}
+				want := "field:Taskfile.Method"
+				if known && !empty {
+					want = "field:Task.Method"
+				}
+				if !known {
+					bad = append(bad, "the method is chosen without testing whether the task has its own `method:` (got "+got+"): "+p.String())
+				} else if got != want {
+					bad = append(bad, fmt.Sprintf("task method set: %v, but the checker is given %s (expected %s): %s", !empty, got, want, p))
+				}
+			}
+		}
+		if seen == 0 {
+			continue
+		}
+		n++
+		c.Decide(len(bad) == 0, rule, "method@"+fnDisplay(fb), fb.Body.Pos(), fmt.Sprintf("task method wins on all %d path(s)", seen), firstN(bad, 2))
+	}
+	c.Floor(rule, n, 4)
 }
